@@ -36,6 +36,25 @@ class _Continue(Exception):
     pass
 
 
+def own_yields(node):
+    """the yield expressions of a function itself (not those of functions defined inside it)"""
+    out, stack = [], list(getattr(node, "body", [])) if not isinstance(node, ast.Lambda) else [node.body]
+    while stack:
+        n = stack.pop()
+        if isinstance(n, (ast.FunctionDef, ast.AsyncFunctionDef, ast.Lambda, ast.ClassDef)):
+            continue
+        if isinstance(n, (ast.Yield, ast.YieldFrom)):
+            out.append(n)
+        stack.extend(ast.iter_child_nodes(n))
+    return out
+
+
+class _GenYield(Exception):
+    """a yield reached while one step of a generator object is run"""
+    def __init__(self, value):
+        self.value = value
+
+
 class _BlockReturn(Exception):
     """`return` inside the block of a with statement whose manager is a generator: unwinds through the manager's frames"""
     def __init__(self, value):
@@ -395,7 +414,7 @@ class Interp:
             if isinstance(node, ast.Lambda):
                 ret[0] = self.eval(node.body, env)
                 return ret[0]
-            is_gen = any(isinstance(n, (ast.Yield, ast.YieldFrom)) for n in ast.walk(node))
+            is_gen = bool(own_yields(node))
             if is_gen and fi is not None and "contextmanager" in fi.decorators:
                 # contextlib.contextmanager: `<enter>; yield v; <exit>` or `<enter>; try: yield v; finally: <exit>` - run by the with statement
                 ret[0] = Obj("contextmanager", qual.rsplit(".", 1)[-1], {"env": env, "body": node.body, "qual": qual}, {"contextmanager"})
@@ -485,9 +504,31 @@ class Interp:
         loop = body[-1]
         if not (isinstance(loop.test, ast.Constant) and loop.test.value is True and not loop.orelse and loop.body):
             return None
-        yields = [n for n in ast.walk(node) if isinstance(n, (ast.Yield, ast.YieldFrom))]
+        yields = own_yields(node)
         at = [k for k, s_ in enumerate(loop.body) if isinstance(s_, ast.Expr) and yields and s_.value is yields[0]]
+
+        def tail_yields(stmts):
+            """every yield of the block is the last thing the block does: the last statement, or the last statement of each branch of a
+            trailing if / else"""
+            if not stmts:
+                return []
+            for s_ in stmts[:-1]:
+                if any(isinstance(n, (ast.Yield, ast.YieldFrom)) for n in ast.walk(s_)):
+                    return None
+            last = stmts[-1]
+            if isinstance(last, ast.Expr) and isinstance(last.value, ast.Yield):
+                return [last.value]
+            if isinstance(last, ast.If):
+                a_, b_ = tail_yields(last.body), tail_yields(last.orelse)
+                if a_ is None or b_ is None or any(isinstance(n, (ast.Yield, ast.YieldFrom)) for n in ast.walk(last.test)):
+                    return None
+                return a_ + b_
+            return None if any(isinstance(n, (ast.Yield, ast.YieldFrom)) for n in ast.walk(last)) else []
+
         if len(yields) != 1 or not at or not isinstance(yields[0], ast.Yield):
+            ty = tail_yields(loop.body)
+            if ty is not None and len(ty) == len(yields) and not any(isinstance(n, (ast.Break, ast.Return)) for n in ast.walk(loop)):
+                return ("tail", body[:-1], loop.body)   # one next() = one pass over the loop body, up to the yield it ends with
             raise Unsupported("generator with an endless loop whose single yield is not a statement of the loop body")
         if any(isinstance(n, (ast.Break, ast.Return)) for n in ast.walk(loop)):
             raise Unsupported("generator with an endless loop that is left by break/return")
@@ -504,8 +545,33 @@ class Interp:
                 g.attrs["taken"] = taken + 1
                 return self.generator_next(src, node)
             raise Unsupported("next() on an islice of unknown length")
-        setup, before, value, after = g.attrs["shape"]
         env, qual = g.attrs["env"], g.attrs["qual"]
+        if g.attrs["shape"][0] == "tail":
+            _, setup, loop_body = g.attrs["shape"]
+            if setup and not g.attrs["started"] and self.loop_kinds and self.loop_kinds[-1] == "symbolic":
+                raise Unsupported("first next() of a generator with set-up statements inside a loop of unknown length")
+            self.depth += 1
+            self.stack.append(qual)
+            self.ev("enter", callee=qual)
+            out = [None]
+            env["__gen_step__"] = True
+            try:
+                if not g.attrs["started"]:
+                    g.attrs["started"] = True
+                    self.exec_block(setup, env)
+                for _ in range(2):
+                    try:
+                        self.exec_block(loop_body, env)
+                    except _GenYield as y_:
+                        out[0] = y_.value
+                        return out[0]
+                raise Unsupported("an endless generator that passes through its loop body without reaching a yield")
+            finally:
+                env.pop("__gen_step__", None)
+                self.ev("exit", callee=qual, value=out[0])
+                self.stack.pop()
+                self.depth -= 1
+        setup, before, value, after = g.attrs["shape"]
         if self.depth >= self.max_depth:
             raise Unsupported("inline depth exceeded at " + qual)
         self.depth += 1
@@ -1144,6 +1210,18 @@ class Interp:
         raise NeedDecision(c, node)
 
     def exec_for(self, st, env):
+        if (isinstance(st.iter, ast.Call) and isinstance(st.iter.func, ast.Name) and st.iter.func.id == "zip" and len(st.iter.args) == 2 and not st.iter.keywords
+                and isinstance(self.lookup("zip", env), ExtRef)):
+            second = self.eval(st.iter.args[1], env)
+            if isinstance(second, Obj) and second.cls == "generator":
+                # for a, b in zip(xs, gen): zip asks xs first and stops when it is exhausted, so gen is advanced once per element of xs
+                env["zip_gen_"] = second
+                pair = ast.Assign(targets=[st.target], value=ast.Tuple(elts=[ast.Name(id="zip_first_", ctx=ast.Load()), ast.Call(
+                    func=ast.Name(id="next", ctx=ast.Load()), args=[ast.Name(id="zip_gen_", ctx=ast.Load())], keywords=[])], ctx=ast.Load()))
+                loop = ast.For(target=ast.Name(id="zip_first_", ctx=ast.Store()), iter=st.iter.args[0], body=[pair] + list(st.body), orelse=list(st.orelse))
+                ast.copy_location(loop, st)
+                ast.fix_missing_locations(loop)
+                return self.exec_for(loop, env)
         it = self.eval(st.iter, env)
         it = self.strip_iter(it)
         if isinstance(it, (list, tuple, range, dict)):
@@ -1458,8 +1536,10 @@ class Interp:
     def eval_Yield(self, e, env):
         v = self.eval(e.value, env) if e.value is not None else None
         cm_ = env
-        while cm_ is not None and "__cm_body__" not in cm_ and "__yield__" not in cm_:
+        while cm_ is not None and "__cm_body__" not in cm_ and "__yield__" not in cm_ and "__gen_step__" not in cm_:
             cm_ = cm_.get("__parent__")
+        if cm_ is not None and "__gen_step__" in cm_:
+            raise _GenYield(v)
         if cm_ is not None and "__cm_body__" in cm_:
             slot = cm_["__cm_body__"]
             slot[4] += 1
